@@ -27,6 +27,9 @@ type Engine struct {
 	freshMemo    map[string]bool
 	globals      map[*ssa.Global]*globalInfo
 	CheckOverflow bool
+
+	getterIfacesDone bool
+	getterIfacesList []*types.Named
 }
 
 func NewEngine(p *Program, cs *Contracts) *Engine {
@@ -298,7 +301,16 @@ func heapName(t types.Type) string {
 	return "H_other"
 }
 
+// ghostHeaps: ghost state declared in contracts ("ghost heap name keysort valsort"):
+// name -> {key sort, value sort}. Filled when contracts are loaded.
+var ghostHeaps = map[string][2]string{}
+
 func heapSort(name string) string {
+	if strings.HasPrefix(name, "G_") {
+		if gs, ok := ghostHeaps[name[2:]]; ok {
+			return "(Array " + gs[0] + " " + gs[1] + ")"
+		}
+	}
 	switch name {
 	case "H_bool":
 		return "(Array Ptr Bool)"
